@@ -7,6 +7,6 @@ import BufrProps.C01
 #print axioms Bufr.C01.C01_dynamic_subset
 #print axioms Bufr.C01.C01_dynamic_roundtrip
 #print axioms Bufr.C01.C01_dynamic_positions
-#print axioms Bufr.C01.C01_bitmap_head_inert_partial
+#print axioms Bufr.C01.C01_bitmap_head_inert
 #print axioms Bufr.C01.C01_subset_loop_head_inert
 #print axioms Bufr.C01.C01_bitmap_head_inert_build
